@@ -154,6 +154,24 @@ while true do
   local ok, g = pcall(mk) if not ok then g = g[1] end
   local _, gg = coroutine.resume(g) emit(coroutine.status(g), gg()) emit(coroutine.resume(g))
 end`},
+	// channel.select with handler functions on every kind of case, in every order (buffered
+	// channels, never blocks): with a context the handlers must get the same arguments
+	{name: "select_handlers", src: `
+local full, empty, half = channel.make(1), channel.make(1), channel.make(2)
+full:send("f") half:send("h")
+local n = 0
+local function h(tag) return function(...) emit(tag, select("#", ...), ...) end end
+while true do
+  n = n + 1
+  emit(channel.select({"<-|", empty, n, h("send-first")})) emit(empty:receive())
+  emit(channel.select({"|<-", empty, h("recv-e")}, {"<-|", empty, n, h("send-after-recv")})) emit(empty:receive())
+  emit(channel.select({"|<-", empty, h("recv-e")}, {"default", h("default-after-recv")}))
+  emit(channel.select({"<-|", full, n, h("send-full")}, {"default", h("default-after-send")}))
+  emit(channel.select({"<-|", full, n, h("send-full")}, {"|<-", half, h("recv-after-send")})) half:send(n)
+  emit(channel.select({"default", h("default-first")}))
+  emit(channel.select({"|<-", full, h("recv-first")})) full:send("f")
+  emit(channel.select({"<-|", full, 1}, {"|<-", empty}, {"default"}))
+end`},
 	{name: "sort_comparator", src: `
 local t = {}
 while true do
